@@ -407,4 +407,17 @@ example : Reach reachExP 4 0 :=
 example : Bound reachExP 4 1 :=
   ⟨4, ⟨true, false, "y", [3], [⟨[1], [2]⟩]⟩, ⟨[1], [2]⟩, Reach.refl 4, rfl, by simp, by simp⟩
 
+/-- The executable check the driver runs on every program is the hypothesis `WF` of the
+    specification theorems. -/
+theorem wfb_iff (P : List Obj) : wfb P = true ↔ WF P := by
+  induction P with
+  | nil => simp [wfb, WF]
+  | cons o older ih =>
+    simp only [wfb, WF, Bool.and_eq_true, List.all_eq_true, decide_eq_true_eq, ih]
+    constructor
+    · rintro ⟨⟨h1, h2⟩, h3⟩
+      exact ⟨h1, fun b hb => ⟨(h2 b hb).1, (h2 b hb).2⟩, h3⟩
+    · rintro ⟨h1, h2, h3⟩
+      exact ⟨⟨h1, fun b hb => ⟨(h2 b hb).1, (h2 b hb).2⟩⟩, h3⟩
+
 end Front
